@@ -4,7 +4,7 @@ import Sentinel.Model.Breaker
     `spec` = the same machine over the bare history of completions (`histOps`).
 
 Ops: `clock <ms>`, `load <rule>…` (rule = `res,kind,retry,minReq,statI,buckets,maxRt,f:<thr bits>,probeNum`,
-`kind` 0 slow-ratio / 1 error-ratio / 2 error-count) `=> <number of valid rules>`, `entry <id> <res>`
+`kind` 0 slow-ratio / 1 error-ratio / 2 error-count) `=> <number of valid rules>`, `entry <id> <res> [#<batch>]`
 `=> pass | block <rule index>`, `exit <id> [err]`, `state <res>` `=> [C,O,H…]`, `log` `=> [events since the last log]`. -/
 namespace Sentinel.Drv.C03
 open Sentinel.LA Sentinel.CB Sentinel.Drv
@@ -91,14 +91,20 @@ def stepD {W} (ops : Rule → WinOps W) (mkB : Nat → Rule → Nat → Brk W) (
       | some prs =>
         let brs := (numbered prs).map fun p => mkB p.1 p.2.rule d.s.now
         ({ d with s := { d.s with brs := brs }, loaded := true }, some (toString brs.length))
-  | ["entry", id, res] => match id.toNat? with
-      | some id =>
-        let r := step ops d.s (.entry id res)
+  | "entry" :: id :: res :: rest =>
+      -- optional `#<n>` = `WithBatchCount(n)`; the machine ignores it
+      let batch? : Option Nat := match rest with
+        | [] => some 1
+        | [b] => if b.startsWith "#" then (b.drop 1).toString.toNat? else none
+        | _ => none
+      match id.toNat?, batch? with
+      | some id, some batch =>
+        let r := step ops d.s (.entry id res batch)
         let txt := match r.2.dec with
           | some (some k) => s!"block {k}"
           | _ => "pass"
         ({ d with s := r.1, pending := d.pending ++ r.2.evs }, some txt)
-      | none => (d, some "bad-op")
+      | _, _ => (d, some "bad-op")
   | "exit" :: id :: rest => match id.toNat? with
       | some id =>
         if rest ≠ [] ∧ rest ≠ ["err"] then (d, some "bad-op") else
